@@ -301,12 +301,17 @@ def gen_case(rng: random.Random):
         feats.add(f"models={models}")
         allb = []
         numbered = rng.random() < 0.8
+        end_after_models = rng.random() < 0.3  # MODEL / atoms / ENDMDL / END for every model
+        if end_after_models:
+            feats.add("END-after-each-model")
         for m in range(1, models + 1):
             allb.append(f"MODEL     {m:4d}" if numbered else rng.choice(["MODEL", f"MODEL {m}"]))
             if not numbered:
                 feats.add("MODEL-without-number")
             allb += body
             allb.append("ENDMDL")
+            if end_after_models:
+                allb.append("END")
         body = allb
     lines += body
     # END records
